@@ -34,6 +34,11 @@ MUTANTS = [
     ('mangle forgets the prefix for underscore names', 'C17', 'mangle', 'lark/load_grammar.py', r"s = '_%s__%s' % \(prefix, s\[1:\]\)", "s = '_%s' % (s[1:],)"),
     ('start search runs over the scanner list (folded keywords gone)', 'C14', 'search_scanner', 'lark/lexer.py', r'\[t for t in self\.terminals if t\.name not in self\.ignore_types\]', '[t for t in self.scanner.terminals if t.name not in self.ignore_types]'),
     ('priority=None leaves one terminal priority in place', 'C05', 'Lark.__init__', 'lark/lark.py', r'            for term in self\.terminals:\n                term\.priority = 0', '            for term in self.terminals[1:]:\n                term.priority = 0'),
+    ('start search over the IGNORED terminals', 'C14', 'search_scanner', 'lark/lexer.py', r'if t\.name not in self\.ignore_types\]', 'if t.name in self.ignore_types]'),
+    ('rules keep the Grammar object\'s own options', 'C10', 'own-options', 'lark/load_grammar.py', r'options = copy\(options\)     # Lark', 'options = options     # Lark'),
+    ('dynamic lexer guard tests the start offset only', 'C15', 'dynamic-guard', 'lark/parser_frontends.py', r'                if not text\.is_complete_text\(\):\n                    raise TypeError\(f"Lexer', '                if text.start != 0:\n                    raise TypeError(f"Lexer'),
+    ('indenter: deep newline tokens bypass handle_NL', 'C18', 'Indenter._process', 'lark/indenter.py', r'                yield from self\.handle_NL\(token\)', '                if len(self.indent_level) < 3:\n                    yield from self.handle_NL(token)\n                else:\n                    yield token'),
+    ('terminal width measured on the bare pattern text', 'C07', '_get_width', 'lark/lexer.py', r'get_regexp_width\(self\.to_regexp\(\)\)', 'get_regexp_width(self.value)'),
     ('transformer visits children right to left', 'C16', '_transform_children', 'lark/visitors.py', r'for c in children:\n(\s+)if isinstance\(c, Tree\):', r'for c in reversed(children):\n\1if isinstance(c, Tree):'),
 ]
 
